@@ -1,3 +1,3 @@
-import Driver.Loop
-/-! Driver for group `stubgen`: replace `[]` by this group's handlers. -/
-def main : IO Unit := TF.Driver.run []
+import Driver.Stubgen
+/-! Driver for group `stubgen` (C26). -/
+def main : IO Unit := TF.Driver.run [TF.Driver.handleStubgen]
